@@ -9,4 +9,5 @@ MODULES = [
     "specs.analysis",
     "specs.cli",
     "specs.findings",
+    "specs.small",
 ]
